@@ -26,6 +26,8 @@ func checkC01(r *Run) {
 	sinkRoutingRule(r, "R3")
 	htmlProvenanceRule(r, "R4")
 	reflectStringRule(r, "R5")
+	r.Rule("R6", "rendered text re-enters evaluation only as template.HTML: the String() of an output builder is returned as a string result or converted to template.HTML, never boxed into an interface as a plain string (it would be escaped again)", 1)
+	renderedTextRule(r, "R6")
 }
 
 func isBuilderWrite(info *types.Info, c *ast.CallExpr) bool {
